@@ -45,7 +45,7 @@ from .columns import parse_column
 from .fixer import ParseFixer
 from ... import frame
 from ...auxiliary import MetadataBlock, Directive
-from ...table_metadata import TableMetadata
+from ...table_metadata import TableMetadata, ColumnUnitException
 
 # Typing alias: 2D grid of cells with rows and cols. Intended indexing: cell_grid[row][col]
 CellGrid = Sequence[Sequence]
@@ -243,19 +243,23 @@ def _make_table(cells: CellGrid, origin, fixer: ParseFixer) -> Table:
     json_precursor, transposed = make_table_json_precursor(
         cells, origin=str(origin.input_location), fixer=fixer,
     )
-    return Table(
-        frame.make_table_dataframe(
-            pd.DataFrame(json_precursor["columns"]),
-            units=json_precursor["units"],
-            table_metadata=TableMetadata(
-                name=json_precursor["name"],
-                destinations=set(json_precursor["destinations"].keys()),
-                origin=origin,
-                transposed=transposed,
-                strict_types=fixer.strict_types
+    try:
+        return Table(
+            frame.make_table_dataframe(
+                pd.DataFrame(json_precursor["columns"]),
+                units=json_precursor["units"],
+                table_metadata=TableMetadata(
+                    name=json_precursor["name"],
+                    destinations=set(json_precursor["destinations"].keys()),
+                    origin=origin,
+                    transposed=transposed,
+                    strict_types=fixer.strict_types
+                )
             )
         )
-    )
+    except ColumnUnitException as e:
+        # e.g. timestamps that parse one by one but do not form one datetime column
+        raise ValueError(f"Invalid table {json_precursor['name']}: {e}") from e
 
 
 def make_table(cells: CellGrid, origin: Optional[TableOrigin]=None, **kwargs) -> Table:
